@@ -9,7 +9,7 @@ from .. import chain_engine as ce
 
 LEVEL = "model_checking"
 MUTANTS = {"gt": "Monotone", "thr_from_new": "NoTakeover", "keys_from_new": "NoTakeover", "noself": "NeverStuck",
-           "noself_stranded": "NotStranded", "keep_on_reject": "ChainInv"}
+           "noself_stranded": "NotStranded", "keep_on_reject": "ChainInv", "malformed_installs": "NoTakeover"}
 
 
 def check(run):
@@ -34,6 +34,7 @@ def replay(payload):
     if payload.get("kind") == "rootchain_behaviour":
         with tempfile.TemporaryDirectory() as d:
             bad, _ = ce.replay_behaviour(payload["behaviour"], payload["seed"], d, payload["index"])
+            bad += ce.replay_behaviour(payload["behaviour"], payload["seed"], d, payload["index"], client="cli")[0]
         print(json.dumps(bad, indent=1, default=repr)[:3000])
         if bad:
             print("VIOLATION property=C04 replay=(this file)")
